@@ -439,6 +439,8 @@ VERIF_FAIL_MESSAGES = (
     "possible overflow",
     "cannot prove that call to",
     "termination not proved",
+    "fails to satisfy callee.requires",
+    "Call to non-static function fails",
 )
 
 
